@@ -98,13 +98,15 @@ where
         buffer: &mut DumpBuf,
         dirent: Option<MDRawDirectory>,
     ) -> std::result::Result<(), FileWriterError> {
-        if let Some(dirent) = dirent {
-            self.dump_dir_entry(buffer, dirent)?;
-        }
-
+        // Write the new data before the directory entry that refers to it, so that a
+        // directory entry on disk never names bytes that have not been written yet.
         let start_pos = self.last_position_written_to_file as usize;
         self.destination.write_all(&buffer[start_pos..])?;
         self.last_position_written_to_file = buffer.position();
+
+        if let Some(dirent) = dirent {
+            self.dump_dir_entry(buffer, dirent)?;
+        }
         Ok(())
     }
 }
